@@ -1624,6 +1624,9 @@ Error Assembler::_emit(InstId inst_id, const Operand_& o0, const Operand_& o1, c
       opcode.add_reg(o0, 5);
       opcode.add_reg(Gp::kIdZr, 0);
 
+      if (o1.is_reg() && !check_signature(o0, o1))
+        goto InvalidInstruction;
+
       if (isign4 == ENC_OPS2(Reg, Reg)) {
         if (!check_gp_id(o0, o1, kZR))
           goto InvalidPhysId;
@@ -1668,7 +1671,7 @@ Error Assembler::_emit(InstId inst_id, const Operand_& o0, const Operand_& o1, c
         uint64_t width = o2.as<Imm>().value_as<uint64_t>();
         uint32_t op_size = x ? 64 : 32;
 
-        if (lsb >= op_size || width == 0 || width > op_size)
+        if (lsb >= op_size || width == 0 || width > op_size - lsb)
           goto InvalidImmediate;
 
         uint32_t lsb32 = Support::neg(uint32_t(lsb)) & (op_size - 1);
@@ -1704,7 +1707,7 @@ Error Assembler::_emit(InstId inst_id, const Operand_& o0, const Operand_& o1, c
         uint64_t width = o3.as<Imm>().value_as<uint64_t>();
         uint32_t op_size = x ? 64 : 32;
 
-        if (lsb >= op_size || width == 0 || width > op_size)
+        if (lsb >= op_size || width == 0 || width > op_size - lsb)
           goto InvalidImmediate;
 
         uint32_t imm_l = Support::neg(uint32_t(lsb)) & (op_size - 1);
@@ -1775,7 +1778,7 @@ Error Assembler::_emit(InstId inst_id, const Operand_& o0, const Operand_& o1, c
         uint64_t width = o3.as<Imm>().value_as<uint64_t>();
         uint32_t op_size = x ? 64 : 32;
 
-        if (lsb >= op_size || width == 0 || width > op_size)
+        if (lsb >= op_size || width == 0 || width > op_size - lsb)
           goto InvalidImmediate;
 
         uint32_t lsb32 = uint32_t(lsb);
@@ -2509,6 +2512,10 @@ Error Assembler::_emit(InstId inst_id, const Operand_& o0, const Operand_& o1, c
             if (opt == 0xFF)
               goto InvalidAddress;
 
+            // UXTW|SXTW take a W index, LSL|SXTX take an X index; write-back does not exist with a register index.
+            if (m.index_type() != ((opt & 1u) ? RegType::kGp64 : RegType::kGp32) || m.is_pre_or_post())
+              goto InvalidAddress;
+
             uint32_t shift = m.shift();
             uint32_t s = shift != 0;
 
@@ -2607,9 +2614,10 @@ Error Assembler::_emit(InstId inst_id, const Operand_& o0, const Operand_& o1, c
         if (!Support::is_int_n<7>(offset32))
           goto InvalidDisplacement;
 
+        if (m.is_pre_or_post() && !op_data.pre_post_op)
+          goto InvalidAddress;
+
         if (m.is_pre_or_post() && offset32 != 0) {
-          if (!op_data.pre_post_op)
-            goto InvalidAddress;
 
           opcode.reset(uint32_t(op_data.pre_post_op) << 22);
           opcode.add_imm(m.is_pre_index(), 24);
@@ -4780,9 +4788,10 @@ Case_BaseLdurStur:
         if (!Support::is_int_n<7>(offset32))
           goto InvalidDisplacement;
 
+        if (m.is_pre_or_post() && !op_data.pre_post_op)
+          goto InvalidAddress;
+
         if (m.is_pre_or_post() && offset32 != 0) {
-          if (!op_data.pre_post_op)
-            goto InvalidAddress;
 
           opcode.reset(uint32_t(op_data.pre_post_op) << 22);
           opcode.add_imm(m.is_pre_index(), 24);
